@@ -363,6 +363,25 @@ func main() {
 					run.Distinct(ti.e.Name + "|opt|" + string(enc))
 				}
 			}
+			// ---- (b') optionals absent at every nesting level: members of nested structs, of struct
+			// elements of vectors and of struct values of maps at their defaults and left off the wire
+			for trial := 0; trial < 2; trial++ {
+				want := deepDefault(ti.st, v, r, trial == 0)
+				enc := rc.EncodeStruct(nil, ti.s, want, rc.EncOpt{OmitDefaults: true})
+				run.Eval(1)
+				w3 := func(x map[string]interface{}) map[string]interface{} {
+					m := wit(x)
+					m["encoding_without_optionals"] = hexClip(enc)
+					return m
+				}
+				vf, errf, panf := decodeFresh(ti, enc)
+				if panf != "" || errf != nil {
+					run.Violation("absent-optional-rejected", "nested:"+ti.e.Name, fmt.Sprintf("optional members absent at every nesting level: err=%v %s", errf, panf), w3(nil))
+				} else if d := rc.Diff(ti.st, want, vf, ""); d != "" {
+					run.Violation("absent-optional-not-default", "nested:"+ti.e.Name, d, w3(map[string]interface{}{"difference": d}))
+				}
+				run.Distinct(ti.e.Name + "|deepopt|" + string(enc))
+			}
 			// ---- (c) required members dropped ----
 			full, _ := rc.ParseFields(rc.EncodeStruct(nil, ti.s, v, rc.EncOpt{}))
 			for _, f := range ti.s.Fields {
@@ -406,6 +425,44 @@ func main() {
 	tupDispatchPhase(vlib.SeedRand(run.Seed, "c04-tupdispatch"))
 	jsonDispatchPhase(vlib.SeedRand(run.Seed, "c04-jsondispatch"))
 	run.Finish()
+}
+
+// deepDefault returns a copy of v in which optional members — at every nesting level — are set to
+// their defaults (all of them, or each with probability 1/2), so that an encoder that omits
+// defaults leaves them off the wire.
+func deepDefault(t *rc.Type, v *rc.Value, r *rand.Rand, all bool) *rc.Value {
+	switch t.Kind {
+	case rc.KStruct:
+		out := &rc.Value{Fs: map[int]*rc.Value{}}
+		for _, f := range t.St.Fields {
+			fv := v.Fs[f.Tag]
+			if fv == nil {
+				fv = rc.DefaultOf(f)
+			}
+			if !f.Require && f.T.Kind != rc.KStruct && f.T.Kind != rc.KArray && (all || r.Intn(2) == 0) {
+				out.Fs[f.Tag] = rc.DefaultOf(f)
+				continue
+			}
+			out.Fs[f.Tag] = deepDefault(f.T, fv, r, all)
+		}
+		return out
+	case rc.KVector, rc.KArray:
+		if rc.IsByteSeq(t) || len(v.L) == 0 {
+			return v
+		}
+		out := &rc.Value{}
+		for _, e := range v.L {
+			out.L = append(out.L, deepDefault(t.Elem, e, r, all))
+		}
+		return out
+	case rc.KMap:
+		out := &rc.Value{MK: v.MK}
+		for _, e := range v.MV {
+			out.MV = append(out.MV, deepDefault(t.Elem, e, r, all))
+		}
+		return out
+	}
+	return v
 }
 
 // evo encodes a value of schema `from` and decodes it with the generated decoder of schema `to`:
